@@ -80,6 +80,17 @@ def forge_same_crc32(data: bytes) -> bytes:
     return out
 
 
+def exit_status(code):
+    """What the parent of a real process would see: None -> 0 (sys.exit()) -- kept as None for
+    os._exit(None), which is a TypeError in the real function --, bool/int -> 8 bits,
+    anything else (sys.exit("message")) -> 1."""
+    if code is None:
+        return None
+    if isinstance(code, int):
+        return int(code) & 0xFF
+    return 1
+
+
 def sha(b) -> str:
     if isinstance(b, str):
         b = b.encode("utf-8", "surrogateescape")
@@ -109,6 +120,7 @@ def import_bitproto():
 class CompilerProcess:
     def __init__(self, plan):
         self.plan = plan
+        seams.install_routers()  # before bitproto is imported: import-time bindings get the routers
         self.fs = SimFS.from_image(plan["fs"])
         self.tw = Tripwires()
         self.tw.install()
@@ -215,16 +227,16 @@ class CompilerProcess:
         errors = self.mod("bitproto.errors")
         if isinstance(exc, SimCrash):
             return "crash:" + ("power" if exc.power else "kill")
-        if isinstance(exc, SimExit):
-            return "exit:%s" % (exc.code,)
-        if isinstance(exc, SystemExit):
-            # sys.exit("message") prints the message to stderr and ends with status 1
-            return "sysexit:%s" % (exc.code if exc.code is None or isinstance(exc.code, int) else 1,)
         if isinstance(exc, StepBudgetExceeded) or self.clock.tripped:
-            # (a tripped clock wins even if the code turned the interruption into something else)
+            # (a tripped clock wins even if the code turned the interruption into something else:
+            # a catch-all that exits with a message, a wrapped exception)
             return "hang:steps"
-        if isinstance(exc, WallTimeout):
+        if isinstance(exc, WallTimeout) or self.wall_tripped:
             return "hang:wall"
+        if isinstance(exc, SimExit):
+            return "exit:%s" % (exit_status(exc.code),)
+        if isinstance(exc, SystemExit):
+            return "sysexit:%s" % (exit_status(exc.code),)
         if isinstance(exc, errors.ParserError):
             return "parser_error:" + type(exc).__name__
         if isinstance(exc, errors.RendererError):
@@ -241,7 +253,7 @@ class CompilerProcess:
         where = "?"
         tb = exc.__traceback__
         frames = traceback.extract_tb(tb) if tb else []
-        if frames and frames[-1].filename.startswith(SIM_DIR) and not isinstance(exc, (ValueError, LookupError)):
+        if frames and frames[-1].filename.startswith(SIM_DIR) and not isinstance(exc, (ValueError, LookupError, RecursionError, MemoryError)) and not getattr(exc, "_sim_user_error", False):
             # raised by the simulator's own code (not an OSError, not the ValueError CPython's file
             # objects raise): the model is wrong or incomplete -- never the system's fault
             raise HarnessError("%s raised inside the simulator at %s:%s (%s): %s" % (type(exc).__name__, frames[-1].filename, frames[-1].lineno, frames[-1].name, exc))
@@ -260,12 +272,14 @@ class CompilerProcess:
         return "internal:%s@%s" % (type(exc).__name__, where)
 
     def _alarm(self, signum, frame):
+        self.wall_tripped = True
         raise WallTimeout()
 
     def system_op(self, i: int, op: dict, fn, budget: int, argv=None) -> dict:
         fs = self.fs
         fs.begin_op(self.faults_by_op.get(i))
         rec = {"i": i, "op": op["op"]}
+        self.wall_tripped = False
         win = Window(fs, self.tw, argv=argv)
         result = None
         exc = None
@@ -297,6 +311,9 @@ class CompilerProcess:
         rec["steps"] = steps
         rec["budget"] = budget
         rec["outcome"] = "ok" if exc is None else self.classify(exc)
+        if exc is None and (self.clock.tripped or self.wall_tripped) and not fs.crashed:
+            # the interruption was swallowed and the call returned: it is a hang all the same
+            rec["outcome"] = "hang:steps" if self.clock.tripped else "hang:wall"
         if fs.crashed and not rec["outcome"].startswith("crash:"):
             # the injected kill is final: what handlers made of it afterwards (a catch-all that
             # exits with a message, a clean-up that raised something else) is fiction no real
@@ -318,10 +335,12 @@ class CompilerProcess:
                 ][-12:]
         fs.end_op()
         rec["seams"] = [k for (_, k, _) in fs.trace]
-        wrote = sorted({p.rsplit("/", 1)[-1] for (_, k, p) in fs.trace if k == "open_w" and p})
+        # files this operation produced: opened for writing, or moved into place by a rename
+        wrote = sorted({p.rsplit("/", 1)[-1] for (_, k, p) in fs.trace if k in ("open_w", "rename") and p})
         if wrote:
             rec["wrote"] = wrote
-        rec["fired"] = list(fs.fired)
+        paths = {n: p for (n, _, p) in fs.trace}
+        rec["fired"] = [dict(f, path=(paths.get(f.get("call")) or "").rsplit("/", 1)[-1]) for f in fs.fired]
         planned = self.faults_by_op.get(i)
         if planned:
             rec["planned"] = len(planned)
@@ -331,8 +350,12 @@ class CompilerProcess:
         rec["stderr_len"] = len(err)
         rec["stderr_sha"] = sha(_ADDR.sub("0x?", err)) if err else ""
         out = win.stdout.getvalue()
+        if getattr(win, "fd1_len", 0):
+            out = out + getattr(win, "fd1_text", "")
         if out:
             rec["stdout_len"] = len(out)
+        if "Traceback (most recent call last)" in err or "Traceback (most recent call last)" in out:
+            rec["traceback_printed"] = True
         exc = None
         return rec, result
 
@@ -510,7 +533,7 @@ class CompilerProcess:
             rec, ret = self.system_op(i, op, lambda: main.run_bitproto(), budget, argv=["bitproto"] + list(op["argv"]))
             if rec["outcome"] == "ok" and ret not in (None, 0):
                 # the console-script wrapper does sys.exit(run_bitproto())
-                rec["outcome"] = "sysexit:%s" % (ret if isinstance(ret, int) else 1,)
+                rec["outcome"] = "sysexit:%s" % (exit_status(ret),)
                 rec["returned_status"] = True
                 if not isinstance(ret, int):
                     rec["exit_msg_len"] = len(str(ret))
